@@ -77,9 +77,12 @@ type world struct {
 	past     [][]string
 	panicked []string // a serve / Shutdown call panicked (recovered by the harness)
 
-	failSeq int         // ids of the failing start calls of this life: 50, 51, ...
-	viols   [][2]string // direct-oracle failures found while the plan ran (key, what); reported by judge
-	abort   bool        // the rest of the plan makes no sense any more
+	outside     bool        // this life: the listener / PacketConn was closed from outside
+	pastOutside []bool      // ... of the lives that are over
+	pastLeft    [][]string  // what was left open when each of them was over
+	failSeq     int         // ids of the failing start calls of this life: 50, 51, ...
+	viols       [][2]string // direct-oracle failures found while the plan ran (key, what); reported by judge
+	abort       bool        // the rest of the plan makes no sense any more
 }
 
 func (w *world) addViol(key, what string) {
@@ -404,8 +407,12 @@ func (w *world) newLife(name string, base int, plan []string) bool {
 		return false
 	}
 	w.goroutinesBack(name, base, plan)
+	left := w.leftover()
 	w.mu.Lock()
 	w.past = append(w.past, w.ev)
+	w.pastOutside = append(w.pastOutside, w.outside)
+	w.pastLeft = append(w.pastLeft, left)
+	w.outside = false
 	w.ev = nil
 	w.conns = map[int]*fakeConn{}
 	w.gates = map[int]chan struct{}{}
@@ -526,21 +533,42 @@ type fakeListener struct {
 	errs     chan error
 	mu       sync.Mutex
 	isClosed bool
+	outside  bool // closed from outside, not by the server
 }
 
+// fatalErr: a non-temporary listener / socket error
+type fatalErr struct{}
+
+func (fatalErr) Error() string { return "fake fatal error" }
+
+// closedEvent: Accept fails because the listener is closed.  Closed by the server (Shutdown):
+// ae.  Closed from outside while the server runs: a non-temporary error the environment
+// injected (sf), like any other fatal Accept error.
+func (l *fakeListener) closedEvent() string {
+	l.mu.Lock()
+	defer l.mu.Unlock()
+	if l.outside {
+		return "sf"
+	}
+	return "ae"
+}
 func (l *fakeListener) Accept() (net.Conn, error) {
 	select {
 	case <-l.closed:
-		l.w.log("ae")
+		l.w.log(l.closedEvent())
 		return nil, net.ErrClosed
 	default:
 	}
 	select {
 	case <-l.closed:
-		l.w.log("ae")
+		l.w.log(l.closedEvent())
 		return nil, net.ErrClosed
 	case e := <-l.errs:
-		l.w.log("ae")
+		if ne, ok := e.(net.Error); ok && ne.Temporary() {
+			l.w.log("ae")
+		} else {
+			l.w.log("sf")
+		}
 		return nil, e
 	case c := <-l.queue:
 		// a closed listener accepts nothing: decide and log under the mutex Close takes,
@@ -557,6 +585,16 @@ func (l *fakeListener) Accept() (net.Conn, error) {
 		l.w.holdAt(fmt.Sprintf("ac.%d", c.id), false, l.w.shutdownSeen)
 		return c, nil
 	}
+}
+
+// CloseOutside: somebody other than the server (a supervisor) closes the listener
+func (l *fakeListener) CloseOutside() {
+	l.mu.Lock()
+	if !l.isClosed {
+		l.outside = true
+	}
+	l.mu.Unlock()
+	l.Close()
 }
 func (l *fakeListener) Close() error {
 	l.mu.Lock()
@@ -694,15 +732,16 @@ type pkt struct {
 	b  []byte
 }
 type fakePC struct {
-	w        *world
-	mu       sync.Mutex
-	cond     *sync.Cond
-	q        []pkt
-	dlPast   bool
-	closed   bool
-	timeouts int // spurious read timeouts to inject
-	sawPast  bool
-	out      map[int]int
+	w       *world
+	mu      sync.Mutex
+	cond    *sync.Cond
+	q       []pkt
+	dlPast  bool
+	closed  bool
+	errq    []error // errors to inject into ReadFrom
+	outside bool    // closed from outside, not by the server
+	sawPast bool
+	out     map[int]int
 }
 
 func (p *fakePC) ReadFrom(b []byte) (int, net.Addr, error) {
@@ -710,17 +749,26 @@ func (p *fakePC) ReadFrom(b []byte) (int, net.Addr, error) {
 	defer p.mu.Unlock()
 	for {
 		if p.closed {
-			p.w.log("re")
+			if p.outside && !p.sawPast {
+				p.w.log("sf") // closed from outside while the server runs: a fatal error of the environment
+			} else {
+				p.w.log("re")
+			}
 			return 0, nil, net.ErrClosed
 		}
 		if p.dlPast {
 			p.w.log("re")
 			return 0, nil, tmpErr{timeout: true}
 		}
-		if p.timeouts > 0 {
-			p.timeouts--
-			p.w.log("re")
-			return 0, nil, tmpErr{timeout: true}
+		if len(p.errq) > 0 {
+			e := p.errq[0]
+			p.errq = p.errq[1:]
+			if ne, ok := e.(net.Error); ok && ne.Temporary() {
+				p.w.log("re")
+			} else {
+				p.w.log("sf")
+			}
+			return 0, nil, e
 		}
 		if len(p.q) > 0 {
 			x := p.q[0]
@@ -759,11 +807,27 @@ func (p *fakePC) Deliver(id int, b []byte) {
 	p.cond.Broadcast()
 	p.mu.Unlock()
 }
-func (p *fakePC) InjectTimeout() {
+func (p *fakePC) InjectTimeout() { p.Inject(tmpErr{timeout: true}) }
+func (p *fakePC) Inject(e error) {
 	p.mu.Lock()
-	p.timeouts++
+	p.errq = append(p.errq, e)
 	p.cond.Broadcast()
 	p.mu.Unlock()
+}
+
+// CloseOutside: somebody other than the server closes the socket
+func (p *fakePC) CloseOutside() {
+	p.mu.Lock()
+	if !p.closed {
+		p.outside = true
+	}
+	p.mu.Unlock()
+	p.Close()
+}
+func (p *fakePC) isClosed() bool {
+	p.mu.Lock()
+	defer p.mu.Unlock()
+	return p.closed
 }
 func (p *fakePC) Close() error {
 	p.mu.Lock()
@@ -870,6 +934,7 @@ func (w *world) shutdown(j int, withCtx bool) {
 	w.mu.Lock()
 	w.sdInvokedAt = time.Now()
 	w.mu.Unlock()
+	lis, pc := w.lis, w.pc // what the server of this life listens on
 	w.hw.Add(1)
 	go func() {
 		defer w.hw.Done()
@@ -882,6 +947,26 @@ func (w *world) shutdown(j int, withCtx bool) {
 			}
 		}()
 		err := w.srv.ShutdownContext(ctx)
+		// what remains at the moment a Shutdown call that took effect returns (nil, or its
+		// context expired): the listener / PacketConn of the server must be closed; after a
+		// nil return also every connection the server accepted
+		if err == nil || err == context.Canceled || err == context.DeadlineExceeded {
+			how := "nil"
+			if err != nil {
+				how = "its context error (handlers still in flight)"
+			}
+			if lis != nil && !lis.closedNow() {
+				w.addViol("C13/socket-open-after-shutdown", "the listener of the server was still open when Shutdown returned "+how)
+			}
+			if pc != nil && !pc.isClosed() {
+				w.addViol("C13/socket-open-after-shutdown", "the PacketConn of the server was still open when ShutdownContext returned "+how)
+			}
+			if err == nil {
+				for _, c := range w.openAccepted() {
+					w.addViol("C13/connection-open-after-shutdown", fmt.Sprintf("connection %d, accepted by the server, was still open when Shutdown returned nil", c))
+				}
+			}
+		}
 		switch {
 		case err == nil:
 			w.log(fmt.Sprintf("dr.%d.0", j))
@@ -893,6 +978,62 @@ func (w *world) shutdown(j int, withCtx bool) {
 			w.log(fmt.Sprintf("dr.%d.9", j))
 		}
 	}()
+}
+func (l *fakeListener) closedNow() bool {
+	l.mu.Lock()
+	defer l.mu.Unlock()
+	return l.isClosed
+}
+
+// openAccepted: connections the server accepted in this life (ao.c logged) that are not closed
+func (w *world) openAccepted() []int {
+	w.mu.Lock()
+	defer w.mu.Unlock()
+	var out []int
+	for _, e := range w.ev {
+		if strings.HasPrefix(e, "ao.") {
+			var c int
+			fmt.Sscanf(e[3:], "%d", &c)
+			if fc := w.conns[c]; fc != nil {
+				fc.mu.Lock()
+				open := !fc.closed
+				fc.mu.Unlock()
+				if open {
+					out = append(out, c)
+				}
+			}
+		}
+	}
+	sort.Ints(out)
+	return out
+}
+
+// leftover: the life is over (every call returned, handlers released).  If a serve call ran and
+// returned, or a Shutdown call took effect, nothing the server listened on or accepted may be open.
+func (w *world) leftover() []string {
+	w.mu.Lock()
+	owned := false
+	for _, e := range w.ev {
+		if strings.HasPrefix(e, "sr.") || (strings.HasPrefix(e, "dr.") && (strings.HasSuffix(e, ".0") || strings.HasSuffix(e, ".1"))) {
+			owned = true
+		}
+	}
+	lis, pc := w.lis, w.pc
+	w.mu.Unlock()
+	if !owned {
+		return nil
+	}
+	var out []string
+	if w.mode == "tcp" && lis != nil && !lis.closedNow() {
+		out = append(out, "the listener")
+	}
+	if w.mode == "udp" && pc != nil && !pc.isClosed() {
+		out = append(out, "the PacketConn")
+	}
+	for _, c := range w.openAccepted() {
+		out = append(out, fmt.Sprintf("connection %d", c))
+	}
+	return out
 }
 func (w *world) cancel(j int) {
 	w.log(fmt.Sprintf("dc.%d", j))
@@ -959,8 +1100,15 @@ func (w *world) judge(name string, plan []string, fatalInjected bool) {
 	for _, v := range w.viols {
 		Viol(v[0], v[1], map[string]any{"scenario": name, "mode": w.mode, "plan": plan, "lives": lives})
 	}
+	lefts := append(append([][]string(nil), w.pastLeft...), w.leftover())
+	outs := append(append([]bool(nil), w.pastOutside...), w.outside)
 	for li, ev := range lives {
-		w.judgeLife(name, plan, fatalInjected, li, len(lives), ev)
+		// a non-temporary Accept / ReadFrom error was injected in this life (sf): the serve call returns it
+		w.judgeLife(name, plan, fatalInjected || idx(ev, "sf") >= 0, li, len(lives), ev, outs[li])
+		if len(lefts[li]) > 0 {
+			Viol("C13/socket-open-after-shutdown", "when the life of the server was over (serve call and every Shutdown call returned, handlers released) still open: "+strings.Join(lefts[li], ", "),
+				map[string]any{"scenario": name, "mode": w.mode, "plan": plan, "events": ev, "life": li + 1})
+		}
 	}
 	if len(panicked) > 0 {
 		Viol("C13/call-panicked", "a serve / Shutdown call panicked: "+strings.Join(panicked, "; "),
@@ -983,7 +1131,7 @@ func (w *world) judge(name string, plan []string, fatalInjected bool) {
 }
 
 // the oracles of the property on the log of one life of the Server value
-func (w *world) judgeLife(name string, plan []string, fatalInjected bool, life, lives int, ev []string) {
+func (w *world) judgeLife(name string, plan []string, fatalInjected bool, life, lives int, ev []string, outsideClosed bool) {
 	in := map[string]any{"scenario": name, "mode": w.mode, "plan": plan, "events": ev}
 	if lives > 1 {
 		in["life"] = fmt.Sprintf("%d of %d lives of the same Server value", life+1, lives)
@@ -1023,10 +1171,11 @@ func (w *world) judgeLife(name string, plan []string, fatalInjected bool, life, 
 	if !w.noReply {
 		// (a ShutdownContext call whose context expired does not wait for the handlers and
 		// closes the PacketConn: no delivery is promised to UDP handlers that return later)
+		// (nor when somebody else closed the PacketConn under the server)
 		cut := len(ev)
 		if w.mode == "udp" {
 			for i, e := range ev {
-				if strings.HasPrefix(e, "dc.") {
+				if strings.HasPrefix(e, "dc.") || (outsideClosed && e == "sf") {
 					cut = i
 					break
 				}
@@ -1113,6 +1262,8 @@ func (w *world) goroutinesBack(name string, base int, plan []string) {
 //	H<key> arm the hold point key (see armHold): the server thread that reaches that step of the
 //	     read loop stays there until the lock region of a Shutdown call has run (or the call is
 //	     blocked on srv.lock)           G<key> wait until a thread is there   L<key> let it go
+//	t    a temporary error of the other flavour (Timeout() true on tcp, false on udp)
+//	f    inject a NON-temporary Accept / ReadFrom error   O    close the listener / PacketConn from outside
 //	F<k> a start call that must fail by itself (kind k, see failStart), the server not serving
 //	E<j> Shutdown call j on the server while it is not started: must return the not-started error at once
 //	N    the life of the Server value is over (all calls returned, no goroutine left): the SAME
@@ -1224,14 +1375,40 @@ func runPlan(mode, name string, plan []string, attempt int) bool {
 		case 'k':
 			w.cancel(a)
 			w.waitFor(fmt.Sprintf("dr.%d.1", a), 1)
-		case 'T':
-			if mode == "tcp" {
-				w.lis.errs <- tmpErr{}
-				w.waitFor("ae", 1)
-			} else {
-				w.pc.InjectTimeout()
-				w.waitFor("re", 1)
+		case 'T', 't', 'f', 'O':
+			// T / t: a temporary error (T: tcp plain, udp timeout; t: tcp timeout, udp plain);
+			// f: a non-temporary error; O: the listener / PacketConn is closed from outside
+			evn := "sf"
+			var e error = fatalErr{}
+			switch op[0] {
+			case 'T':
+				e = tmpErr{timeout: mode == "udp"}
+			case 't':
+				e = tmpErr{timeout: mode == "tcp"}
 			}
+			if op[0] == 'T' || op[0] == 't' {
+				evn = "ae"
+				if mode == "udp" {
+					evn = "re"
+				}
+			}
+			w.mu.Lock()
+			before := w.count(evn)
+			if op[0] == 'O' {
+				w.outside = true
+			}
+			w.mu.Unlock()
+			switch {
+			case op[0] == 'O' && mode == "tcp":
+				w.lis.CloseOutside()
+			case op[0] == 'O':
+				w.pc.CloseOutside()
+			case mode == "tcp":
+				w.lis.errs <- e
+			default:
+				w.pc.Inject(e)
+			}
+			w.waitFor(evn, before+1)
 		case 'W':
 			w.waitFor(op[1:], 1)
 		case 'P':
@@ -1580,6 +1757,16 @@ func runC13(r *Rng, tier string, n int) {
 				realHistory(append(h, o))
 			}
 		}
+		// a life that ends by itself (socket closed from outside), Shutdown, the next life
+		for xi, x := range []string{"X:AS:udp", "X:AS:tcp", "X:LS:udp", "X:LS:tcp"} {
+			for oi, o := range oks {
+				if (xi+oi)%2 == 0 {
+					realHistory([]string{x, o})
+				} else {
+					realHistory([]string{o, x, oks[(oi+xi)%len(oks)]})
+				}
+			}
+		}
 		nMixed := 12
 		if thorough {
 			nMixed = 150
@@ -1597,6 +1784,17 @@ func runC13(r *Rng, tier string, n int) {
 				}
 			}
 			realHistory(append(h, oks[r.Intn(len(oks))]))
+		}
+	}
+	// ---- K. every way a serve call ends by itself: a non-temporary Accept / ReadFrom error, or the
+	//         listener / PacketConn closed from outside, at every point of a life (idle, handler in
+	//         flight, after a served request, after temporary errors of both flavours, after a client
+	//         close), followed by Shutdown (waiting / context expiry / after the serve call returned /
+	//         after a refused second start) and by a restart of the same Server value
+	for _, mode := range []string{"tcp", "udp"} {
+		for _, sc := range selfEndCases(mode) {
+			runPlan(mode, "self-end-"+sc.name, sc.plan, 0)
+			st["family_self_end"]++
 		}
 	}
 	// ---- D. real sockets: the same oracles, no model case; every Server value lives twice
@@ -1686,6 +1884,85 @@ func holdCases(mode string) []holdCase {
 					plan = append(plan, "R9", "Wsr.0")
 				}
 				out = append(out, holdCase{nm, plan})
+			}
+		}
+	}
+	return out
+}
+
+// selfEndCases: see family K in runC13
+func selfEndCases(mode string) []holdCase {
+	c := func(ops ...string) []string {
+		var out []string
+		for _, o := range ops {
+			if (o[0] == 'C' || o[0] == 'X') && mode != "tcp" {
+				continue
+			}
+			out = append(out, o)
+		}
+		return out
+	}
+	type pos struct {
+		name     string
+		ops      []string
+		inflight bool // handler 1 is held
+		returns  bool // the serve call can return by itself after the error (nothing keeps it)
+	}
+	poss := []pos{
+		{"idle", c("S0"), false, true},
+		{"inflight", c("S0", "C1", "Q1"), true, false},
+		{"served", c("S0", "C1", "Q1", "R1"), false, mode == "udp"},
+		{"after-temporary-errors", c("S0", "T", "t", "T"), false, true},
+		{"two-inflight", c("S0", "C1", "C2", "Q1", "Q2"), true, false},
+	}
+	if mode == "tcp" {
+		poss = append(poss, pos{"client-closed", []string{"S0", "C1", "Q1", "R1", "X1", "Wwc.1"}, false, true},
+			pos{"idle-connection", []string{"S0", "C1"}, false, false})
+	}
+	life := c("S0", "C1", "Q1", "D0", "R1", "Wdr.0.0", "Wsr.0")
+	var out []holdCase
+	for _, kind := range []string{"f", "O"} {
+		for _, p := range poss {
+			rel := []string{}
+			if p.inflight {
+				rel = append(rel, "R1")
+				if p.name == "two-inflight" {
+					rel = append(rel, "R2")
+				}
+			}
+			follows := map[string][]string{
+				"shutdown":               append(append([]string{"D0"}, rel...), "Wdr.0.0", "Wsr.0"),
+				"second-start-shutdown":  append(append([]string{"S1", "Wse.1", "D0"}, rel...), "Wdr.0.0", "Wsr.0"),
+				"released-then-shutdown": nil,
+			}
+			if p.inflight {
+				follows["ctx-expiry"] = append(append([]string{"K0", "k0"}, rel...), "Wsr.0")
+			}
+			if p.returns {
+				follows["serve-returns-first"] = []string{"Wsr.1", "D0", "Wdr.0.0"}
+				follows["serve-returns-first-ctx"] = []string{"Wsr.1", "K0", "Wdr.0.0"}
+			}
+			if p.inflight && mode == "udp" {
+				// the handlers return, the serve call returns its error by itself, then Shutdown
+				follows["released-then-shutdown"] = append(append([]string{}, rel...), "Wsr.1", "D0", "Wdr.0.0")
+			}
+			var names []string
+			for nm, f := range follows {
+				if f != nil {
+					names = append(names, nm)
+				}
+			}
+			sort.Strings(names)
+			for fi, nm := range names {
+				plan := append(append([]string{}, p.ops...), kind)
+				plan = append(plan, follows[nm]...)
+				name := mode + "-" + kind + "-" + p.name + "-" + nm
+				if fi%2 == 0 {
+					// and the same Server value lives again
+					plan = append(append(plan, "N"), life...)
+					name += "-restart"
+				}
+				out = append(out, holdCase{name, plan})
 			}
 		}
 	}
@@ -1897,6 +2174,140 @@ func restartWhileDraining(mode string, keepOpen bool) {
 // ---------------------------------------------------------------- real loopback sockets
 var realHangs int
 
+// sockOpen: is this real socket still open?  (setting a deadline fails on a closed socket)
+func sockOpen(x any) (open bool, known bool) {
+	switch s := x.(type) {
+	case *net.UDPConn:
+		return s.SetReadDeadline(time.Unix(1, 0)) == nil, true // (the deadline Shutdown itself sets)
+	case *net.TCPListener:
+		return s.SetDeadline(time.Unix(1, 0)) == nil, true
+	}
+	return false, false
+}
+
+// realSelfEnd: one life of srv over real sockets that ends by itself: the socket is closed from
+// outside while the server runs (k = 1, tcp: with a handler in flight, released afterwards, the
+// client then closes).  The serve call must return; Shutdown afterwards must terminate (nil or
+// the not-started error); the next item of the history starts the same Server value again.
+func realSelfEnd(srv *dns.Server, life int, how, network string, k int) string {
+	in := map[string]any{"network": network, "start": how, "life_of_the_server_value": life, "ends_by": "socket closed from outside", "handlers_in_flight": k}
+	gate := make(chan struct{}, 4)
+	entered := make(chan struct{}, 4)
+	started := make(chan struct{})
+	srv.NotifyStartedFunc = func() { close(started) }
+	srv.Handler = dns.HandlerFunc(func(w dns.ResponseWriter, req *dns.Msg) {
+		entered <- struct{}{}
+		<-gate
+		m := new(dns.Msg)
+		m.SetReply(req)
+		w.WriteMsg(m)
+	})
+	var closeSock func()
+	var addr string
+	switch {
+	case how == "LS":
+		srv.Net, srv.Addr = network, "127.0.0.1:0"
+	case network == "udp":
+		pc, err := net.ListenPacket("udp", "127.0.0.1:0")
+		if err != nil {
+			return err.Error()
+		}
+		srv.PacketConn, addr, closeSock = pc, pc.LocalAddr().String(), func() { pc.Close() }
+	default:
+		l, err := net.Listen("tcp", "127.0.0.1:0")
+		if err != nil {
+			return err.Error()
+		}
+		srv.Listener, srv.PacketConn, addr, closeSock = l, nil, l.Addr().String(), func() { l.Close() }
+	}
+	served := make(chan error, 1)
+	go func() {
+		defer func() {
+			if r := recover(); r != nil {
+				served <- fmt.Errorf("serve call panicked: %v", r)
+			}
+		}()
+		if how == "LS" {
+			served <- srv.ListenAndServe()
+		} else {
+			served <- srv.ActivateAndServe()
+		}
+	}()
+	select {
+	case <-started:
+	case err := <-served:
+		if err != nil && strings.Contains(err.Error(), "already started") {
+			in["error"] = err.Error()
+			Viol("C13/start-refused-while-not-started", "a start of a Server value that is not serving was refused with the already-started error", in)
+			return ""
+		}
+		return "server did not start: " + fmt.Sprint(err)
+	case <-time.After(waitLong):
+		return "server did not start"
+	}
+	if how == "LS" {
+		if network == "udp" {
+			pc := srv.PacketConn
+			addr, closeSock = pc.LocalAddr().String(), func() { pc.Close() }
+		} else {
+			l := srv.Listener
+			addr, closeSock = l.Addr().String(), func() { l.Close() }
+		}
+	}
+	var c *dns.Conn
+	if k > 0 && network == "tcp" {
+		var err error
+		if c, err = dns.DialTimeout("tcp", addr, 5*time.Second); err != nil {
+			return "dial: " + err.Error()
+		}
+		c.SetDeadline(time.Now().Add(waitLong))
+		if err := c.WriteMsg(new(dns.Msg).SetQuestion("real.example.", dns.TypeA)); err != nil {
+			return "write: " + err.Error()
+		}
+		select {
+		case <-entered:
+		case <-time.After(waitLong):
+			return "request did not reach the handler"
+		}
+	}
+	closeSock()
+	if c != nil {
+		gate <- struct{}{}
+		if _, err := c.ReadMsg(); err != nil {
+			Viol("C13/reply-not-delivered", "reply of a handler in flight when the listener was closed from outside was not delivered: "+err.Error(), in)
+		}
+		c.Close()
+	}
+	select {
+	case err := <-served:
+		if err != nil && strings.Contains(err.Error(), "panicked") {
+			Viol("C13/call-panicked", err.Error(), in)
+		}
+		in["serve_call_returned"] = fmt.Sprint(err)
+	case <-time.After(waitLong):
+		Viol("C13/serve-did-not-return", "the serve call did not return after its socket had been closed from outside (real sockets)", in)
+		realHangs++
+		return "hang"
+	}
+	sd := make(chan error, 1)
+	go func() { sd <- srv.Shutdown() }()
+	select {
+	case err := <-sd:
+		if err != nil && !strings.Contains(err.Error(), "not started") {
+			Viol("C13/shutdown-unexpected-error", "Shutdown after the serve call had ended by itself returned "+err.Error(), in)
+		}
+	case <-time.After(waitLong):
+		Viol("C13/shutdown-hangs", "the serve call had returned by itself (its socket was closed from outside); Shutdown afterwards did not return (real sockets)", in)
+		realHangs++
+		return "hang"
+	}
+	if r, txt := expectNotStarted(srv); r != "2" {
+		Viol("C13/shutdown-blocks-after-failed-start", "Shutdown of a stopped Server value did not return the not-started error at once: "+txt, in)
+	}
+	st["real_self_end_lives_checked"]++
+	return ""
+}
+
 var tlsOnce sync.Once
 var tlsCfg *tls.Config
 
@@ -1957,6 +2368,17 @@ func realHistory(items []string) {
 			case "hung":
 				Viol("C13/failed-start-blocks", "a start call that cannot serve did not return", in)
 				realHangs++
+				return
+			}
+		case strings.HasPrefix(it, "X:"):
+			// X:<how>:<net>
+			life++
+			infra := realSelfEnd(srv, life, it[2:4], it[5:], idx%2)
+			if infra != "" {
+				if infra != "hang" {
+					fmt.Fprintln(os.Stderr, "C13 real-socket history", items, "infrastructure problem:", infra)
+					st["real_history_infra_problems"]++
+				}
 				return
 			}
 		default:
@@ -2021,6 +2443,7 @@ func realOnce(srv *dns.Server, life int, how, network string, k int, withCtx boo
 		logf(fmt.Sprintf("hx.%d", req.Id))
 	})
 	var addr string
+	var sock any // the socket the server of this life listens on, where the harness can get at it
 	in0 := map[string]any{"network": network, "start": how, "life_of_the_server_value": life}
 	if network == "tcp-tls" {
 		srv.TLSConfig = serverTLS()
@@ -2037,12 +2460,14 @@ func realOnce(srv *dns.Server, life int, how, network string, k int, withCtx boo
 			return err.Error()
 		}
 		srv.PacketConn = pc
+		sock = pc
 		addr = pc.LocalAddr().String()
 	default:
 		l, err := net.Listen("tcp", "127.0.0.1:0")
 		if err != nil {
 			return err.Error()
 		}
+		sock = l
 		addr = l.Addr().String()
 		if network == "tcp-tls" {
 			l = tls.NewListener(l, srv.TLSConfig)
@@ -2080,8 +2505,10 @@ func realOnce(srv *dns.Server, life int, how, network string, k int, withCtx boo
 		// (set under srv.lock before NotifyStartedFunc ran)
 		if network == "udp" {
 			addr = srv.PacketConn.LocalAddr().String()
+			sock = srv.PacketConn
 		} else {
 			addr = srv.Listener.Addr().String()
+			sock = srv.Listener // (a TLS listener cannot be probed)
 		}
 	}
 	// second start must fail at once
@@ -2136,8 +2563,15 @@ func realOnce(srv *dns.Server, life int, how, network string, k int, withCtx boo
 	ctx, cancel := context.WithCancel(context.Background())
 	defer cancel()
 	sd := make(chan error, 1)
+	sockAtReturn := make(chan bool, 1)
 	go func() {
 		err := srv.ShutdownContext(ctx)
+		// the moment Shutdown returns (nil or context error): the server's socket is closed
+		if open, known := sockOpen(sock); known {
+			sockAtReturn <- open
+		} else {
+			sockAtReturn <- false
+		}
 		if err == nil {
 			logf("dr.0.0")
 		} else {
@@ -2181,6 +2615,18 @@ func realOnce(srv *dns.Server, life int, how, network string, k int, withCtx boo
 		Viol("C13/serve-did-not-return", "the serve call did not return after Shutdown (real sockets)", in)
 		realHangs++
 		return "hang"
+	}
+	select {
+	case open := <-sockAtReturn:
+		if open {
+			Viol("C13/socket-open-after-shutdown", "the socket the server listened on ("+addr+") was still open when Shutdown / ShutdownContext returned (real sockets)", in)
+		} else {
+			st["real_socket_closed_at_shutdown_return_checked"]++
+		}
+	default:
+	}
+	if open, known := sockOpen(sock); known && open {
+		Viol("C13/socket-open-after-shutdown", "the socket the server listened on ("+addr+") was still open after the serve call had returned (real sockets)", in)
 	}
 	// replies of the in-flight handlers are delivered (after a context expiry
 	// ShutdownContext has closed the UDP socket: nothing to expect there)
